@@ -56,10 +56,16 @@ type program struct {
 	start    int // 0 closed one short of tripping, 1 open near the deadline, 2 half-open with the probe in flight
 	early    uint64
 	preHeld  []int // entries each task holds at the start (obtained while closed)
+	eras     []era // scripted eras (nil: free schedule with ticks as schedule actions)
 	blocker  bool  // a second breaker on the resource, after the one under test, that stays open: every probe of
 	// the first is blocked by it and rolled back to open by the probe's exit hook
 	tasks     [][]int
 	tickKinds []uint64
+}
+
+type era struct {
+	tick  uint64 // clock advance before the era
+	start []int  // tasks that may start their next operation in this era
 }
 
 type opRec struct {
@@ -222,7 +228,50 @@ func execute2(c *hx.Case, p program, choose func(enabled []int, last int) int, t
 	}
 	ticks, last, k := 0, -1, len(tasks)
 	inside2 := false
-	for stepNo < 500 {
+	// Scripted eras: the clock advances between eras by given amounts; in each era the listed tasks may start their next
+	// operation; a task preempted inside an operation stays suspended into later eras (a straggler) and may be resumed at
+	// any later step. The schedule inside the eras (and when to move on) is the explorer's choice.
+	for _, er := range p.eras {
+		if er.tick > 0 {
+			hx.C.AddMs(er.tick)
+			c.Op("tick %d", er.tick)
+		}
+		released := map[int]bool{}
+		for _, g := range er.start {
+			released[g] = true
+		}
+		for stepNo < 500 {
+			var enabled []int
+			inside, canAdvance := 0, true
+			for i, tk := range tasks {
+				if tk.Done {
+					continue
+				}
+				if tk.Point != "start" && tk.Point != "user.opdone" {
+					inside++
+					enabled = append(enabled, i)
+				} else if released[i] {
+					enabled = append(enabled, i)
+					canAdvance = false // every released operation is at least started before the era ends
+				}
+			}
+			if inside >= 2 {
+				inside2 = true
+			}
+			if canAdvance {
+				enabled = append(enabled, k)
+			}
+			a := choose(enabled, last)
+			last = a
+			if a == k {
+				break
+			}
+			delete(released, a)
+			step(tasks[a])
+			c.Op("g%d@%s state=%d", a, tasks[a].Point, cur)
+		}
+	}
+	for p.eras == nil && stepNo < 500 {
 		var enabled []int
 		inside := 0
 		for i, tk := range tasks {
@@ -458,6 +507,15 @@ func basePrograms() []program {
 		// half-open with the probe in flight: it completes while another request arrives
 		ps = append(ps, program{strategy: model.ErrorCount, probeNum: probe, retry: 5, start: 2, preHeld: []int{0, 0}, tasks: [][]int{{oExitErr}, {oEntry}}})
 		ps = append(ps, program{strategy: model.ErrorRatio, probeNum: probe, retry: 5, start: 2, preHeld: []int{0, 0}, tasks: [][]int{{oExitOK}, {oEntry, oExitErr}}})
+		// stragglers from the closed era: A and B fail while closed (either may be suspended anywhere inside its completion),
+		// a full retry timeout later C probes, 1 ms later the probe fails (re-open) or succeeds (close), and retry-1 ms
+		// after that A asks again: that request is inside the second open period's timeout
+		for _, st := range []int{model.ErrorCount, model.ErrorRatio, model.SlowRequestRatio} {
+			for _, probeEnd := range []int{oExitErr, oExitOK} {
+				ps = append(ps, program{strategy: st, probeNum: probe, retry: 5, start: 0, preHeld: []int{1, 1, 0}, tasks: [][]int{{oExitErr, oEntry}, {oExitErr}, {oEntry, probeEnd}},
+					eras: []era{{0, []int{0, 1}}, {5, []int{2}}, {1, []int{2}}, {4, []int{0}}}})
+			}
+		}
 		// open, deadline passed, a second open breaker behind it: the probe is blocked and rolled back while a request
 		// admitted before the outage completes
 		ps = append(ps, program{strategy: model.ErrorCount, probeNum: probe, retry: 5, start: 1, blocker: true, preHeld: []int{0, 1}, tasks: [][]int{{oEntry}, {oExitOK}}})
